@@ -187,7 +187,8 @@ def encodeDct (dct : Dct) (v : IVal) : EncM Unit := do
           | _, _ => raise .unmodelled)
         modifyS fun s => { s with lengthKeys := insertKV key b s.lengthKeys }
         pure b)
-    if bl < 0 then raise .foreign else emplaceAtomic v bl.toNat bt enc hl none
+    if bl < 0 then do odxraise .encode; raise .unmodelled   -- negative length key: every base type ends in an EncodeError
+    else emplaceAtomic v bl.toNat bt enc hl none
 
 /-- `DataType.isinstance(value)` -/
 def typeAdmits (bt : BaseType) (v : IVal) : Bool :=
@@ -205,6 +206,11 @@ def withOrigin {α} (m : EncM α) : EncM α := do
   let r ← m
   modifyS fun s' => { s' with origin := s.origin }
   pure r
+
+/-- two numbers of which at least one is a float (Python compares them numerically) -/
+def numericPair : PVal → PVal → Bool
+  | .atom (.flt _), .atom (.int _) | .atom (.int _), .atom (.flt _) | .atom (.flt _), .atom (.flt _) => true
+  | _, _ => false
 
 mutual
 /-- structural equality of physical values (Python `==` on the value trees the harness sends) -/
@@ -376,7 +382,10 @@ def encodeParam : (fuel : Nat) → Param → Option PVal → EncM Unit
       encodeDct dct value
     | .physConst dop value => do
       match pv with
-      | some p => if !(pvalEq p value) then odxraise .encode
+      | some p =>
+        if !(pvalEq p value) then
+          (if numericPair p value then raise .unmodelled          -- Python `!=` on numbers: 39.0 == 39, -0.0 == 0.0
+           else odxraise .encode)
       | none => pure ()
       encodeDop fuel dop value
     | .value dop dflt => do
